@@ -97,13 +97,13 @@ type profile struct {
 
 var profiles = map[string]profile{
 	"C04": {minTargets: 1, maxTargets: 2, modes: []string{"stream"}, gatedPct: 25, maxSteps: 30, maxSubs: 3, preload: 3, starPct: 30, pickPct: 40,
-		weights: map[string]int{"w": 14, "start": 5, "release": 5, "relw": 3, "grant": 3, "check": 2, "drain": 2},
+		weights: map[string]int{"w": 14, "start": 5, "release": 5, "relw": 3, "grant": 3, "check": 2, "drain": 2, "sleep": 1},
 		wkinds:  []string{"noti", "noti", "noti", "noti", "noti", "noti", "noti", "noti", "reset", "sync", "updmeta"},
-		parks:   []string{"", "sub.pre-register", "sub.registered", "sub.walk.begin", "sub.walk.end"}},
+		parks:   []string{"", "sub.pre-register", "sub.registered", "sub.walk.begin", "sub.walk.end", "coalesce.next.empty"}},
 	"C05": {minTargets: 1, maxTargets: 3, modes: []string{"once", "poll", "poll"}, gatedPct: 20, maxSteps: 24, maxSubs: 3, preload: 5, starPct: 35, pickPct: 30,
-		weights: map[string]int{"w": 6, "start": 6, "release": 3, "poll": 6, "eof": 2, "grant": 2, "drain": 2},
+		weights: map[string]int{"w": 6, "start": 6, "release": 3, "poll": 6, "eof": 2, "grant": 2, "drain": 2, "sleep": 2},
 		wkinds:  []string{"noti", "noti", "noti", "noti", "reset", "remove", "add"},
-		parks:   []string{"", "", "sub.walk.begin", "sub.walk.end"}},
+		parks:   []string{"", "", "sub.walk.begin", "sub.walk.end", "coalesce.next.empty", "coalesce.next.empty"}},
 	"C07": {minTargets: 2, maxTargets: 4, modes: []string{"stream", "stream", "once", "poll"}, acl: true, gatedPct: 15, maxSteps: 30, maxSubs: 4, preload: 4, starPct: 60, pickPct: 30,
 		weights: map[string]int{"w": 14, "start": 6, "release": 3, "relw": 2, "poll": 2, "grant": 2, "check": 2, "drain": 2},
 		wkinds:  []string{"noti", "noti", "noti", "noti", "noti", "noti", "reset", "remove", "add"},
